@@ -1,6 +1,8 @@
 import LinOp.Core.Parse
 import LinOp.C05.Model
 import LinOp.C05.ModelKron
+import LinOp.C05.ModelB
+import LinOp.C05.ModelFlat
 /-! Line-protocol driver for the C05 models (exact rationals).
   shape <path tokens joined by '/'> <batch dims joined by '.' or '-'> <absent|vec|mat:m> <logdet 0/1> <reduce 0/1>
         → `<inv_quad term> <logdet term>` with terms `none | empty | shape[d1,d2,…] | err`
@@ -29,6 +31,7 @@ partial def parsePath : List String → Option (Path × List String)
   | "kron" :: r => do let (p, r') ← parsePath r; some (.kron p, r')
   | "kronfb" :: r => do let (p, r') ← parsePath r; some (.kronFb p, r')
   | "block" :: k :: r => do let k ← k.toNat?; let (p, r') ← parsePath r; some (.block p k, r')
+  | "cat" :: r => do let (p, r') ← parsePath r; some (.cat p, r')
   | "rep" :: bb :: rp :: r => do
       let bb ← parseDims bb; let rp ← parseDims rp; let (p, r') ← parsePath r; some (.rep p bb rp, r')
   | _ => none
@@ -63,10 +66,8 @@ def clamp7 (x : Float) : Float := if x < 1e-7 then 1e-7 else x
 instance : Zero Float := ⟨0.0⟩
 instance : One Float := ⟨1.0⟩
 
-/-- flat row-major position of a multi-index -/
-def KIdx.flat : (l : List Nat) → KIdx l → Nat
-  | [], _ => 0
-  | _ :: l, (i, j) => i.1 * l.foldr (· * ·) 1 + KIdx.flat l j
+-- `KIdx.flat` (flat row-major position of a multi-index) is `LinOp.C05.KIdx.flat` of ModelFlat.lean: `rowMajor_flat` proves
+-- that `KIdx.all` visits the flat positions 0, 1, 2, … in order, so reading `rhs[flat idx]` and printing in `KIdx.all` order are row-major.
 
 def mkMats : (l : List Nat) → List (Array (Array Rat)) → KMats Rat l
   | [], _ => ()
@@ -88,6 +89,22 @@ def run (line : String) : String :=
       let (iq, ld) := shapes p b r (lg = "1") (rd = "1")
       showTerm iq ++ " " ++ showTerm ld
     | _, _, _ => "bad-op"
+  | ["shapeb", p, b, rb, m, lg, rd] =>
+    let leaf : Option BLeaf := match p with
+      | "chol" => some .chol | "diag" => some .diag | "identity" => some .identity | "slq" => some .slq | _ => none
+    match leaf, parseDims b, parseDims rb, m.toNat? with
+    | some p, some b, some rb, some m =>
+      let (iq, ld) := shapesB p b rb m (lg = "1") (rd = "1")
+      showTerm iq ++ " " ++ showTerm ld
+    | _, _, _, _ => "bad-op"
+  | ["iqshape", b, rb, m, rd] =>
+    match parseDims b, parseDims rb, m.toNat? with
+    | some b, some rb, some m => showTerm (invQuadEntry b rb m (rd = "1"))
+    | _, _, _ => "bad-op"
+  | ["bcast", a, b] =>
+    match parseDims a, parseDims b with
+    | some a, some b => (match bcast a b with | some r => showTerm (.shape r) | none => "err")
+    | _, _ => "bad-op"
   | ["slq", c, v0, fth] =>
     match parseRat? c, parseMat? v0, parseMat? fth with
     | some c, some v0, some fth =>
